@@ -47,6 +47,14 @@ def check_pixel(project: Project, rep, weight, kernel, sigma, skew, label):
             rep.refuted("PI-AXIS", fi, ev["node"],
                         f"{tag}: the flattened (birth, persistence) mesh is reshaped with a different axis order/shape: kernel "
                         f"values land in the wrong pixels (image axes are no longer (birth, persistence))")
+    mis = [ev for ev in I.log if ev["kind"] == "zip-misaligned"]
+    if mis:
+        rep.refuted("PI-PIXEL", fi, mis[0]["node"],
+                    f"{tag}: per-point values are paired BY POSITION with a row selection of the diagram (index spaces "
+                    f"{[str(k)[:60] for k in mis[0]['spaces']]}): once a point is filtered out, every later point is accumulated "
+                    f"with another point's weight, so a pixel is no longer Σ weight × kernel mass",
+                    construct=f"{TR}: positional pairing after a one-sided row filter")
+        return
     if not isinstance(r, Arr) or r.ndim != 2:
         rep.unmodelled("PI-PIXEL", fi, fi.node, f"{tag}: image is not a 2-d array: {r!r}"[:200])
         return
